@@ -179,6 +179,11 @@ class MixDriver:
                 step["asg"].append({"pool": k, "cpu": cpu, "ram": ram, "ops": [list(x) for x in ops]})
                 if rng.random() < 0.25:
                     step["asg"][-1]["resume"] = True          # the is_resume flag of the API: a label, nothing else
+                    olds = [mc.ordinal for mc in w.suspending[k]] + [mc.ordinal for mc in w.suspended[k][-3:]]
+                    if olds and rng.random() < 0.7:
+                        step["asg"][-1]["resume_of"] = rng.choice(olds)   # ... naming a container written out / being written out
+                if rng.random() < 0.2:
+                    step["asg"][-1]["force"] = True           # force_run: documented, stored, without effect
                 budget_c -= cpu
                 if not w.overcommit:
                     budget_r -= ram
@@ -208,6 +213,8 @@ class MixDriver:
             step["sus"] = [s for s in step["sus"] if s["pool"] != k]
             tot_c = sum(x["cpu"] for x in step["asg"] if x["pool"] == k)
             tot_r = sum(x["ram"] for x in step["asg"] if x["pool"] == k)
+            if rng.random() < 0.5:
+                a["force"] = True            # an overselling batch stays inadmissible whatever its flags say
             if bad_kind == "oversell-cpu":
                 a["cpu"] += (w.free_cpu[k] - tot_c) + rng.choice([1, 1, 2, 0.5])
                 step["_bad"] = bad_kind
